@@ -296,6 +296,30 @@ def run_case(c):
             sv = vals[order]
             for w0 in omegas:
                 table[pos, int(np.searchsorted(sv, w0))] += 1
+    # scalar entry point and the table of all four main-diagonal datasets
+    from phonopy.structure.tetrahedron_method import _get_relative_grid_addresses_from_main_diagonal, get_all_tetrahedra_relative_grid_address
+
+    vC0 = vertex_values(tmC, 0)
+    tmC.set_tetrahedra_omegas(vC0)
+    tmC.run(omegas, value="J")
+    arrJ = np.array(tmC.get_integration_weight())
+    for k_, w0 in enumerate(omegas[:4]):
+        tmC.run(float(w0), value="J")
+        sJ = tmC.get_integration_weight()
+        obs["n_scalar_entry"] = obs.get("n_scalar_entry", 0) + 1
+        if abs(float(sJ) - arrJ[k_]) > 1e-14:
+            bad("thm_scalar_vs_vector", "scalar and vector entry points of the tetrahedron weight differ: %r vs %r" % (float(sJ), arrJ[k_]))
+    allrel = np.array(get_all_tetrahedra_relative_grid_address())
+    obs["n_all_relative"] = 1
+    for k_ in range(4):
+        relP, _ci = _get_relative_grid_addresses_from_main_diagonal(k_)
+        a_ = sorted(tuple(sorted(map(tuple, t))) for t in allrel[k_])
+        b_ = sorted(tuple(sorted(map(tuple, t))) for t in np.array(relP))
+        if a_ != b_:
+            bad("tetrahedra_differ", "all_tetrahedra_relative_grid_address[%d] differs from the Python dataset" % k_, diag=k_)
+    tm0 = TetrahedronMethod(None, lang="C")
+    if sorted(tuple(sorted(map(tuple, t))) for t in np.array(tm0.tetrahedra)) != sorted(tuple(sorted(map(tuple, t))) for t in allrel[0]):
+        bad("tetrahedra_differ", "TetrahedronMethod(None) does not use the first main diagonal dataset")
     obs["n_top_norm"] = 1
     if abs(totJ_top - len(pts)) > 1e-9 * len(pts):
         bad("J_normalisation", "sum over grid points of J(above top) = %.12g, expected %d" % (totJ_top, len(pts)), field=c["field"])
